@@ -46,6 +46,7 @@ impl Ev {
     }
 }
 
+#[allow(dead_code)]
 #[derive(Debug, Default)]
 pub struct Log {
     pub first_tid: u32,
@@ -138,6 +139,7 @@ fn split_ret(s: &str) -> (&str, String) {
 
 pub const STACK_SZ: u64 = 8192 * 16 * 16;
 
+#[allow(dead_code)]
 #[derive(Debug, Clone)]
 pub struct Cloned {
     pub tid: u32,
@@ -149,6 +151,7 @@ pub struct Cloned {
     pub stack: Option<(u64, u64)>,
 }
 
+#[allow(dead_code)]
 #[derive(Debug, Default)]
 pub struct Threads {
     pub cloned: Vec<Cloned>,
